@@ -946,6 +946,10 @@ class VariationalWassersteinDistance(darsia.EMD):
                 # Fetch all faces with this orientations
                 faces = self.grid.faces[orientation]
 
+                # Grids with a single cell in this direction have no such faces
+                if len(faces) == 0:
+                    continue
+
                 # Pick the neighbouring cells (use left and right just for synonyms)
                 for i, side in enumerate(range(2)):
                     # Fetch cells and respective corners corresponding to the faces.
